@@ -89,11 +89,11 @@ func runLikeCLI(dir, name string, sel map[string]int) (o obsv) {
 		if acl != nil {
 			p.ShowControl(acl)
 			rvm.RunShutdownCallbacks()
-			o.Kind, o.Exit = "exit", 1
+			o.Kind, o.Exit = "done", 1
 			return
 		}
 		rvm.RunShutdownCallbacks()
-		o.Kind, o.Exit = "exit", 0
+		o.Kind, o.Exit = "done", 0
 	}()
 	os.Stdout, os.Stderr = savedOut, savedErr
 	vshim.OnIter = nil
